@@ -120,6 +120,79 @@ pub fn g1(ctx: &Ctx) {
     ctx.observe(&wr.bytes);
 }
 
+/// program of G6: every record of the prototype is narrower than a byte (no float, nothing that
+/// fills a byte per point), 0..=17 points: flushes that find no complete byte in any stream
+pub fn gen_g6(ctx: &Ctx) -> (Program, Vec<(i64, i64)>) {
+    let wx = 1 + ctx.pick("width-x", 7) as u32;
+    let wy = 1 + ctx.pick("width-y", 7) as u32;
+    let wz = [1u32, 3, 7][ctx.pick("width-z", 3)];
+    let n = ctx.pick("npoints", 18);
+    let cap = [None, Some(1), Some(3)][ctx.pick("cap", 3)];
+    let scaled = ctx.pick("scaled", 2) == 1;
+    let extra = ctx.pick("fourth-record", 3); // none, a 1-bit row index, a zero-width intensity
+    let ranges: Vec<(i64, i64)> = [wx, wy, wz].iter().map(|w| (-3i64, -3 + ((1i64 << w) - 1))).collect();
+    let mut proto = Vec::new();
+    for (nme, (min, max)) in ["cartesianX", "cartesianY", "cartesianZ"].iter().zip(ranges.iter()) {
+        proto.push(rec(nme, if scaled { Ty::Scaled { min: *min, max: *max, scale: 0.5, offset: 1.0 } } else { Ty::Int { min: *min, max: *max } }));
+    }
+    match extra {
+        1 => proto.push(rec("rowIndex", Ty::Int { min: 0, max: 1 })),
+        2 => proto.push(rec("intensity", Ty::Int { min: 5, max: 5 })),
+        _ => {}
+    }
+    let mut cl = cloud(proto, n, 1);
+    for (i, pt) in cl.points.iter_mut().enumerate() {
+        for (k, (min, max)) in ranges.iter().enumerate() {
+            let vals = cat::int_values(*min, *max);
+            let v = vals[(i + k) % vals.len()];
+            pt[k] = if scaled { Val::Scaled(v) } else { Val::Int(v) };
+        }
+    }
+    cl.cap = cap;
+    (Program { guid: "g".into(), ops: vec![Op::Cloud(cl)], ..Default::default() }, ranges)
+}
+
+/// G6 — only narrow records: the coordinate streams equal the independent bit codec, the file is
+/// well-formed and reads back
+pub fn g6(ctx: &Ctx) {
+    let (p, ranges) = gen_g6(ctx);
+    ctx.describe(|| crate::wprog::describe(&p));
+    let Some(wr) = write_valid(ctx, &p, P) else { return };
+    let rep = validate(&wr.bytes, &Options { strict: true, ..Default::default() });
+    if !rep.ok() {
+        ctx.violation(format!("{P}/{}/{}", rep.problems[0].rule, msg_class(&rep.problems[0].msg)), format!("independent validator: {} || {}", rep.summary(), crate::wprog::describe(&p)));
+        return;
+    }
+    let pts = p_points(&p);
+    let n = pts.len();
+    if let Some(sec) = rep.sections.iter().find(|s| s.kind == "cv") {
+        for (k, (min, max)) in ranges.iter().enumerate() {
+            let vals: Vec<i64> = pts.iter().map(|pt| match pt[k] { Val::Int(v) | Val::Scaled(v) => v, _ => 0 }).collect();
+            let want = bits::encode_ints(&vals, *min, *max);
+            let w = bits::width(*min, *max) as usize;
+            let got = &sec.streams[k];
+            if got.len() != (n * w + 7) / 8 {
+                ctx.violation(format!("{P}/stream-length"), format!("stream {k} of {n} values of {w} bits has {} bytes || {}", got.len(), crate::wprog::describe(&p)));
+                return;
+            }
+            for b in 0..n * w {
+                if (got[b / 8] >> (b % 8)) & 1 != (want[b / 8] >> (b % 8)) & 1 {
+                    ctx.violation(format!("{P}/bit-layout"), format!("stream {k} bit {b} differs from the independent codec || {}", crate::wprog::describe(&p)));
+                    return;
+                }
+            }
+        }
+    } else if n > 0 {
+        ctx.violation(format!("{P}/no-section"), format!("no compressed vector section found || {}", crate::wprog::describe(&p)));
+        return;
+    }
+    if crate::oracle::read_and_compare(ctx, &p, &wr, P, None).is_none() {
+        return;
+    }
+    ctx.nontrivial();
+    ctx.observe(&wr.bytes);
+}
+
 fn p_points(p: &Program) -> &Vec<Vec<Val>> {
     match &p.ops[0] {
         Op::Cloud(c) => &c.points,
